@@ -46,6 +46,8 @@ def run(ctx, rep):
     coverage_rule(f, P, rep)
     format_rounding_rule(f, rep, 'C20.7')
     walk_rule(f, rep, 'C20.8')
+    used_span_rule(f, rep, 'C20.9')
+    cli_arith_rule(ctx.bin, rep, 'C20.10')
 
 
 def format_rounding_rule(f, rep, rid):
@@ -192,6 +194,129 @@ def walk_rule(f, rep, rid):
                               'virtual size is not a cluster multiple is skipped, check() reports its data cluster as leaked (or '
                               'misses a bad mapping there)' % (short(b.path), why))
     rep.floor('guest walks of check()', n, 2)
+
+
+def used_span_rule(f, rep, rid):
+    """The host clusters check() counts as used by a compressed mapping are exactly the clusters the extent
+    [off, off+len) touches.  One cluster too many hides a leaked cluster behind an extent that ends on a cluster
+    boundary (check() accepts an image with a leak); one too few reports a used cluster as leaked."""
+    from ..align import AlignInt, CL
+    from ..absint import mentions, short_vn
+    from . import span
+    rep.rule(rid, 'check(): the inclusive cluster range counted as used for a compressed mapping starts at the cluster of the first '
+                  'byte, covers the end of the extent and contains no cluster beyond it')
+    n = 0
+    # the length a compressed mapping carries is at least 1: lower bound of the length L2Entry::compressed_range builds
+    from ..absint import AbsInt
+    cr = 'meta::l2::L2Entry::compressed_range'
+    if f.body(cr) is None:
+        raise AnalysisError('L2Entry::compressed_range not found')
+    a0 = AbsInt(f)
+    fr0, ex0, _s0 = a0.analyze(cr, lambda ai_, st, frame, b_: st.itv.__setitem__(st.env[(('L', frame, 2), ())], (9, 21)))
+    len_lo = None
+    for _bi, st0 in ex0.items():
+        rv = st0.env.get((('L', fr0, 0), ()))
+        if rv is not None and rv[0] == 'opt' and rv[2][0] == 'agg' and len(rv[2][3]) == 2:
+            i = a0.itvof(st0, rv[2][3][1])
+            if i is not None:
+                len_lo = i[0] if len_lo is None else min(len_lo, i[0])
+    rep.ob(rid, 'compressed_range: the length of a compressed extent is at least 1', len_lo is not None and len_lo >= 1, 'lower bound %s' % len_lo)
+    for b in f.body_list:
+        if not b.is_coroutine or 'dev::check::' not in b.path or '::tests::' in b.path:
+            continue
+        if not any((t.get('fn') or '').endswith('::add_used_cluster_to_set') for _bi, t in b.calls()):
+            continue
+        ai = AlignInt(f)
+        ai.mapping_except = ('',)
+        mfields = {'cluster_offset': [], 'compressed_length': []}
+        orig_read = ai.read_place
+
+        def read_place(st, b_, frame, pl, orig_read=orig_read, mfields=mfields, ai=ai):
+            v = orig_read(st, b_, frame, pl)
+            for idx, e in enumerate(pl['p']):
+                if e['k'] == 'field' and e.get('n') in mfields:
+                    ptid = ai.place_tid(b_, {'l': pl['l'], 'p': pl['p'][:idx]})
+                    if ptid is not None and f.types[ptid].get('p') == 'meta::l2::Mapping':
+                        pay = v[2] if v[0] == 'opt' else v
+                        if pay[0] == 'u':
+                            mfields[e['n']].append(pay)
+            return v
+        ai.read_place = read_place
+        ranges = {}
+
+        def on_range(ai_, st, frame, b_, bi, t, args):
+            if frame[0] is None and len(args) == 2:
+                ranges[bi] = (st, args[0], args[1])
+            return None
+        ai.hooks['RangeInclusive::<Idx>::new'] = on_range
+
+        def setup(ai_, st, frame, b_):
+            st.le.update(ai_.base_state().le)
+        ai.analyze(b.path, setup)
+        for bi, (st, lo, hi) in sorted(ranges.items()):
+            lens = [x for x in mfields['compressed_length'] if mentions(hi, lambda v, x=x: v == x)]
+            offs = [x for x in mfields['cluster_offset'] if mentions(lo, lambda v, x=x: v == x)]
+            if not lens or not offs:
+                continue
+            n += 1
+            if len_lo is not None and len_lo >= 1:
+                st = st.copy()
+                ai.refine(st, lens[0], 1, 1 << 40)
+            start = ('bin', 'Shl', lo, CL)
+            count = ai.mk_bin('Add', ai.mk_bin('Sub', hi, lo), ('c', 1))
+            for what, ok in span.obligations(ai, st, offs[0], lens[0], start, count):
+                rep.ob(rid, '%s: clusters counted for a compressed mapping at %s: %s' % (short(b.path), b.where(bi), what), ok,
+                       'range %s ..= %s' % (short_vn(lo)[:60], short_vn(hi)[:80]))
+                if not ok:
+                    rep.violation(rid, '%s:%s:%s' % (rid, short(b.path), what.split(' ')[0] + '-' + what.split(' ')[-1]), b.where(bi),
+                                  '%s counts the host clusters %s ..= %s as used by a compressed mapping, which is not exactly the set '
+                                  'of clusters the extent touches (%s fails, e.g. for an extent that ends on a cluster boundary): a '
+                                  'leaked cluster behind such an extent is counted as used and check() accepts the image' % (
+                                      short(b.path), short_vn(lo)[:60], short_vn(hi)[:80], what))
+    rep.floor('compressed spans counted by check()', n, 1)
+
+
+def cli_arith_rule(fb, rep, rid):
+    """The routines of the rqcow2 binary that compute with header fields (dump after format, dump, map) do not hit an
+    arithmetic-overflow panic for any header the parser accepts (cluster_bits 9..21, refcount_order 0..6)."""
+    from ..absint import AbsInt
+    rep.rule(rid, 'rqcow2: no arithmetic overflow panic (sub / shift / add / mul on header fields) in the CLI routines for any accepted header')
+    RANGES = {'Qcow2Header::cluster_bits': (9, 21, 'u32'), 'Qcow2Header::refcount_order': (0, 6, 'u32'),
+              'Qcow2Info::cluster_bits': (9, 21, 'usize')}
+    n = 0
+    for b in fb.body_list:
+        if '::tests::' in b.path:
+            continue
+        used = [t.get('fn') or '' for _bi, t in b.calls() if any((t.get('fn') or '').endswith(k) for k in RANGES)]
+        if not used:
+            continue
+        ai = AbsInt(fb)
+        for k, (lo, hi, ty) in RANGES.items():
+            def mk(ai_, st, frame, b_, bi, t, args, lo=lo, hi=hi, ty=ty, k=k):
+                return ('u', ('ranged', (k, frame, b_.path, bi), lo, hi), ty)
+            ai.hooks[k] = mk
+        ai.analyze(b.path)
+        for key, ob in sorted(ai.obl.items(), key=lambda kv: (kv[0][0], kv[0][1])):
+            if not ob.kind.startswith('assert:Overflow') or ob.frame[0] is not None:
+                continue
+            if not ob.ok:
+                # decided only when every operand is bounded by the modelled header ranges (an operand that is an
+                # arbitrary 64-bit header field, e.g. a table offset, is outside this rule)
+                import re
+                spans = re.findall(r'in \[([^\]]*)\]', str(ob.detail))
+                def wide(sp):
+                    parts = [x.strip() for x in sp.split(',')]
+                    return len(parts) != 2 or 'inf' in sp or any(x.startswith('0x') and len(x) > 10 for x in parts)
+                if not spans or any(wide(sp) for sp in spans):
+                    rep.note_undecided(rid, ob.where, 'operand not bounded by the accept set: %s' % str(ob.detail)[:120])
+                    continue
+            n += 1
+            rep.ob(rid, '%s at %s' % (short(b.path), ob.where), ob.ok, str(ob.detail)[:160])
+            if not ob.ok:
+                rep.violation(rid, '%s:%s' % (rid, short(b.path)), ob.where,
+                              'rqcow2 %s: %s for a header the library accepts: the command panics (exit code 101) instead of '
+                              'completing' % (short(b.path), str(ob.detail)[:200]))
+    rep.floor('overflow-checked operations on header fields in the CLI', n, 1)
 
 
 def cli_rule(fb, rep):
